@@ -294,6 +294,30 @@ def r3b(F, rep):
     ref = disp["dist2"][1]
     if len(ref) < 2:
         raise AnalysisBroken("colvar::dist2: dispatch conditions not found")
+    # every variable that can be declared periodic from its components uses the component's metric
+    init = F.one("colvar::init")
+    ires = X.const_locals(init)
+    gfeat = set()
+    for c in X.calls(init):
+        if X.callee_name(c) == "set_enabled" and X.call_args(c) and "f_cv_periodic" in X.key(X.call_args(c)[0], init):
+            facts, _ = C.guard_facts(init, c, ires)
+            for t in facts:
+                if t[0] == "true" and "is_enabled(" in t[1] and "this.is_enabled" in t[1]:
+                    gfeat.add(X.re_strip(t[1]))
+    if not gfeat:
+        raise AnalysisBroken("colvar::init: the condition under which f_cv_periodic is set from the components was not found")
+    for m in ("dist2", "dist2_lgrad", "dist2_rgrad"):
+        f, conds = disp[m]
+        deleg = None
+        for x in f.walk():
+            if x["k"] == "IfStmt":
+                cs = x["c"][1:] if len(x["c"]) == 4 else x["c"]
+                if len(cs) >= 2 and cs[1] is not None and any(X.callee_name(c) == m and X.receiver(c) is not None and "cvcs" in X.key(X.receiver(c), f) for c in X.calls(f, cs[1])):
+                    deleg = X.re_strip(X.key(cs[0], f, X.const_locals(f)))
+        ok = deleg is not None and deleg in gfeat
+        rep.add("C18-R3", "colvar::%s|periodic-implies-component-metric" % m, f.loc(), "colvar::%s hands the metric to its first component under `%s`; colvar::init() declares a variable periodic under %s" % (
+            m, deleg, sorted(gfeat)), ok,
+            detail="a variable flagged periodic for which the delegation does not happen measures distances with the plain, non-periodic difference", func=f.q)
     for m in ("dist2_lgrad", "dist2_rgrad"):
         f, conds = disp[m]
         diff = [c for c in conds if c not in ref] + [c for c in ref if c not in conds]
